@@ -2,13 +2,23 @@
    FULL STATEMENT (DESIGN.md §3 C01(d)): for every zlib oracle with inflate∘deflate = id, every file,
    options with optimize_alpha = scale_16 = false, every schedule and deadline pattern:
      spec_decode file = Some pic -> optimize_from_memory … file = Ok out -> spec_decode out = Some pic.
-   PROVED SO FAR (this file): the per-pixel content of that statement for the reductions that act
-   on 8/16-bit samples, and the row-filter stage. The lift from pixels to whole images (layout
-   invariance) and the palette / sub-byte reductions are not yet proved in Coq; they are decided on
-   every run by the correspondence check and the specification oracle (see evidence). The theorems
-   below are therefore labelled _partial. *)
-From OxiVerif Require Import Base.Common Spec.Filter Spec.Adam7 Spec.Sem Model.Types Model.BitDepth
-  Model.ScanLines Model.Filters Proofs.Bridge Proofs.PixelProofs Proofs.FilterProofs.
+   PROVED SO FAR (this file):
+   (1) per-pixel exactness of the sample mappings and the row-filter stage (the C01_partial_pixel theorems);
+   (2) IMAGE LEVEL, for every width, height, interlacing and content: each of the transformations
+       16->8, RGB(A)->gray(A), alpha removal, truecolour/gray->indexed, indexed->channels, palette
+       condensation, palette luma sort and any palette reordering that covers the used indices maps a
+       well-formed image that means `pic` to a well-formed image that means `pic` (the C01_image theorems);
+   (3) PIPELINE: perform_reductions, for every option vector with the two lossy switches off and every
+       clock: the baseline and every candidate handed to the evaluator mean what the input means
+       (C01_reductions_lossless_partial) -- given the record `leaves`, which names exactly the
+       transformations whose image-level theorem is NOT yet proved in Coq (sub-byte expansion and
+       reduction, interlacing change, coverage of the mzeng/battiato reindexing); those, the
+       compression/filter stage at image level and the container are decided on every run by the
+       correspondence check and the specification oracle (see evidence). *)
+From OxiVerif Require Import Base.Common Spec.Filter Spec.Adam7 Spec.Sem Model.Types Model.Options Model.BitDepth
+  Model.ScanLines Model.Filters Model.Color Model.Palette Model.Reductions
+  Proofs.Bridge Proofs.PixelProofs Proofs.FilterProofs Proofs.ImageLift Proofs.LiftReductions Proofs.LiftColor
+  Proofs.LiftPalette Proofs.PipelineLossless.
 
 (* 16 -> 8 bit reduction: every pixel (samples whose two bytes are equal) keeps its exact RGBA
    value, colour key included (this is the statement that was false before fix 13ac031) *)
@@ -61,6 +71,69 @@ Theorem C01_partial_filter_stage : forall (f : row_filter) (bpp : nat) (data pre
               unfilter_line f bpp buf prev = Ok data.
 Proof. exact unfilter_filter_line. Qed.
 Print Assumptions C01_partial_filter_stage.
+
+(* ------------------------------------------------------------------ image level (all sizes, interlaced or not) *)
+Theorem C01_image_16_to_8 : forall img img' pic, means pic img ->
+  reduced_bit_depth_16_to_8 img false = Some img' -> means pic img'.
+Proof. exact reduced_16_to_8_means. Qed.
+Print Assumptions C01_image_16_to_8.
+
+Theorem C01_image_rgb_to_gray : forall img img' pic, wf img ->
+  reduced_rgb_to_grayscale img = Some img' -> sem img = Some pic -> sem img' = Some pic /\ wf img'.
+Proof. exact reduced_rgb_to_grayscale_sem. Qed.
+Print Assumptions C01_image_rgb_to_gray.
+
+Theorem C01_image_drop_alpha : forall img img' pic, wf img ->
+  reduced_alpha_channel img false = Some img' -> sem img = Some pic -> sem img' = Some pic /\ wf img'.
+Proof. exact reduced_alpha_channel_sem. Qed.
+Print Assumptions C01_image_drop_alpha.
+
+Theorem C01_image_to_indexed : forall img img' allow_gray pic, wf img ->
+  reduced_to_indexed img allow_gray = Some img' -> sem img = Some pic -> sem img' = Some pic /\ wf img'.
+Proof. exact reduced_to_indexed_sem. Qed.
+Print Assumptions C01_image_to_indexed.
+
+Theorem C01_image_indexed_to_channels : forall img img' allow_gray pic, wf img ->
+  indexed_to_channels img allow_gray false = Some img' -> sem img = Some pic -> sem img' = Some pic /\ wf img'.
+Proof. exact indexed_to_channels_sem. Qed.
+Print Assumptions C01_image_indexed_to_channels.
+
+Theorem C01_image_reduced_palette : forall img img' pic, wf img ->
+  reduced_palette img false = Some img' -> sem img = Some pic -> sem img' = Some pic /\ wf img'.
+Proof. exact reduced_palette_sem. Qed.
+Print Assumptions C01_image_reduced_palette.
+
+Theorem C01_image_sorted_palette : forall img img' pic, wf img ->
+  sorted_palette img = Ok (Some img') -> sem img = Some pic -> sem img' = Some pic /\ wf img'.
+Proof. exact sorted_palette_sem. Qed.
+Print Assumptions C01_image_sorted_palette.
+
+(* any reordering of the palette that still lists every index the image uses *)
+Theorem C01_image_palette_reorder : forall img remapping img' pic,
+  depth (hdr img) = 8 -> wf img -> (length remapping <= 256)%nat ->
+  (forall pal, ctype (hdr img) = Indexed pal -> covers (lenZ pal) remapping (data img)) ->
+  apply_palette_reorder img remapping = Ok (Some img') -> sem img = Some pic -> sem img' = Some pic /\ wf img'.
+Proof. exact apply_palette_reorder_sem. Qed.
+Print Assumptions C01_image_palette_reorder.
+
+(* the lifting principle itself: two byte-aligned images whose pixels, in order, have the same colours
+   mean the same picture -- whatever the dimensions and the interlacing *)
+Theorem C01_lift_samecols : forall w h il pc pc' (B B' : nat) (pxs pxs' : list (list Z)),
+  (0 < B)%nat -> (0 < B')%nat ->
+  Forall (fun px => length px = B) pxs -> Forall (fun px => length px = B') pxs' ->
+  map (fun px => pc' (sbits_of_bytes px)) pxs' = map (fun px => pc (sbits_of_bytes px)) pxs ->
+  gsem w h (8 * Z.of_nat B') il pc' (concat pxs') = gsem w h (8 * Z.of_nat B) il pc (concat pxs).
+Proof. exact samecols_gsem. Qed.
+Print Assumptions C01_lift_samecols.
+
+(* ------------------------------------------------------------------ the reduction pipeline *)
+Theorem C01_reductions_lossless_partial : forall (L : leaves) e o img pic baseline evs,
+  optimize_alpha o = false -> scale_16 o = false ->
+  means pic img ->
+  perform_reductions e o img = Ok (baseline, evs) ->
+  means pic baseline /\ Forall (cand_means pic) evs.
+Proof. exact perform_reductions_lossless_partial. Qed.
+Print Assumptions C01_reductions_lossless_partial.
 
 (* non-vacuity: the witness of finding F1 (4x2 gray16, pixels 3434 1212 0000 ffff, key 0x1234):
    after the fix the key is dropped because it can match no pixel *)
